@@ -9,7 +9,8 @@
 * `qualifies(cls, request)` is the monitor's own reading of "engine class `cls` honours every requirement of `request`".
   For fake engines it is computed from the harness configuration, for library engines from the class's own published
   answers (`supports`, `satisfies`, `ensures`, `supports_plan`, `supports_compilation`) — the property is defined through
-  those notions.
+  those notions.  "Supports the kind" is always judged on a fresh copy of the kind *as requested* (declared version 1, 2,
+  latest or None), through the library's `<=` for harness engines: a request in an older version means its upgrade.
 """
 import inspect
 import sys
@@ -106,7 +107,7 @@ def make_fake(clsname, cfg):
         "__init__": __init__,
         "name": property(lambda self: clsname),
         "supported_kind": staticmethod(lambda: kind.clone()),
-        "supports": staticmethod(lambda problem_kind: problem_kind <= kind),
+        "supports": staticmethod(lambda problem_kind: problem_kind <= kind.clone()),
         "satisfies": staticmethod(lambda optimality_guarantee: optimality_guarantee.name in og),
         "ensures": staticmethod(lambda anytime_guarantee: anytime_guarantee.name in ag),
         "supports_plan": staticmethod(lambda plan_kind: plan_kind.name in plans),
@@ -123,9 +124,26 @@ def make_fake(clsname, cfg):
     return cls
 
 
+def _latest():
+    return up.model.problem_kind_versioning.LATEST_PROBLEM_KIND_VERSION
+
+
+def fresh(kind):
+    """A fresh copy of a requested kind (same raw features, same declared version or None): the library's `<=` mutates the
+    raw feature sets of its operands, so every judgement works on its own copy of the ORIGINAL kind."""
+    return kind.clone()
+
+
+def at_latest(kind):
+    """The kind a harness compiler works on: the requested kind brought to the latest version by the library's own
+    upgrade (union with the empty kind of the latest version)."""
+    return fresh(kind).union(ProblemKind(version=_latest()))
+
+
 def _fake_rpk(problem_kind, compilation_kind, cks):
+    # harness compilers declare their output at the latest version (their add-sets are drawn from the latest universe)
     add, rem = cks.get(compilation_kind.name if compilation_kind is not None else None, (frozenset(), frozenset()))
-    return ProblemKind((set(problem_kind.features) - rem) | add, version=problem_kind.version)
+    return ProblemKind((set(at_latest(problem_kind).features) - rem) | add, version=_latest())
 
 
 # ---- the monitor's own reading of "qualifies" -----------------------------------------------------------
@@ -157,7 +175,8 @@ def qualifies(cls, mode, kind, og=None, ck=None, pk=None, ag=None):
             return False, "compilation_kind"
         if "ag" in reqs and ag is not None and ag.name not in cfg["ag"]:
             return False, "anytime_guarantee"
-        if not frozenset(kind.features) <= cfg["features"]:
+        # "supports" is the library's order on kinds (it upgrades an older / un-versioned request before comparing)
+        if not (fresh(kind) <= ProblemKind(cfg["features"], version=_latest())):
             return False, "problem_kind"
         return True, "ok"
     if not getattr(cls, "is_" + mode)():
@@ -171,7 +190,7 @@ def qualifies(cls, mode, kind, og=None, ck=None, pk=None, ag=None):
         return False, "compilation_kind"
     if "ag" in reqs and ag is not None and not cls.ensures(ag):
         return False, "anytime_guarantee"
-    if not cls.supports(kind):
+    if not cls.supports(fresh(kind)):
         return False, "problem_kind"
     return True, "ok"
 
@@ -181,8 +200,8 @@ def resulting_kind(cls, kind, ck):
     cfg = cls.__dict__.get("_vk_cfg")
     if cfg is not None:
         add, rem = cfg["ck"].get(ck.name, (frozenset(), frozenset()))
-        return ProblemKind((set(kind.features) - rem) | add, version=kind.version)
-    return cls.resulting_problem_kind(kind, ck)
+        return ProblemKind((set(at_latest(kind).features) - rem) | add, version=_latest())
+    return cls.resulting_problem_kind(fresh(kind), ck)
 
 
 def scan(factory_engines, pref, mode, kind, og=None, ck=None, pk=None, ag=None):
